@@ -5,7 +5,7 @@ import NomtModel.Store.Crash3
 
 `Store/Crash.lean` proves the crash / power-loss theorems for any `Params` (`reach`, `absTree` with the frame property).  Here:
 
-* `Content` := a page (`ByteArray`), files are page functions; `fileOf q n` rebuilds a file of `n` pages from a page function.
+* `Content` := a page (`ByteArray`), files are page functions; `fileOfPages q n` rebuilds a file of `n` pages from a page function.
 * `MetaRec` := `RealMeta`: the meta page, the read sets of `ln` / `bbn` (what the walk of the old image marks), the lengths.
 * `realParams.reach` := the read set; `realParams.absTree mr p` := `absImage` of the image rebuilt from `mr`'s meta page and the
   pages of `p` IN the read set (zero pages elsewhere) — the frame field is then immediate.
@@ -28,36 +28,36 @@ theorem size_normPage (c : ByteArray) : (normPage c).size = PAGE := by
 theorem normPage_of_size {c : ByteArray} (h : c.size = PAGE) : normPage c = c := by
   unfold normPage; rw [if_pos h]
 
-def fileOf (q : Nat → ByteArray) : Nat → ByteArray
+def fileOfPages (q : Nat → ByteArray) : Nat → ByteArray
   | 0 => ByteArray.empty
-  | n + 1 => fileOf q n ++ normPage (q n)
+  | n + 1 => fileOfPages q n ++ normPage (q n)
 
-theorem size_fileOf (q : Nat → ByteArray) : ∀ n, (fileOf q n).size = n * PAGE := by
+theorem size_fileOfPages (q : Nat → ByteArray) : ∀ n, (fileOfPages q n).size = n * PAGE := by
   intro n
   induction n with
-  | zero => simp [fileOf]
-  | succ n ih => rw [fileOf, ByteArray.size_append, ih, size_normPage, succ_mul_page]
+  | zero => simp [fileOfPages]
+  | succ n ih => rw [fileOfPages, ByteArray.size_append, ih, size_normPage, succ_mul_page]
 
-theorem pageOf_fileOf (q : Nat → ByteArray) : ∀ n i, i < n → pageOf (fileOf q n) i = some (normPage (q i)) := by
+theorem pageOf_fileOfPages (q : Nat → ByteArray) : ∀ n i, i < n → pageOf (fileOfPages q n) i = some (normPage (q i)) := by
   intro n
   induction n with
   | zero => intro i h; cases h
   | succ n ih =>
     intro i hi
-    have hsz : (i + 1) * PAGE ≤ (fileOf q (n + 1)).size := by
-      rw [size_fileOf]; exact Nat.mul_le_mul_right _ hi
+    have hsz : (i + 1) * PAGE ≤ (fileOfPages q (n + 1)).size := by
+      rw [size_fileOfPages]; exact Nat.mul_le_mul_right _ hi
     rw [pageOf_some hsz]
     congr 1
-    rw [fileOf]
+    rw [fileOfPages]
     by_cases hlt : i < n
-    · have hle : (i + 1) * PAGE ≤ (fileOf q n).size := by rw [size_fileOf]; exact Nat.mul_le_mul_right _ hlt
+    · have hle : (i + 1) * PAGE ≤ (fileOfPages q n).size := by rw [size_fileOfPages]; exact Nat.mul_le_mul_right _ hlt
       rw [extract_append_left' hle]
       have := ih i hlt
       rw [pageOf_some hle] at this
       injection this
     · have hin : i = n := by omega
       subst hin
-      rw [extract_append_right' (by rw [size_fileOf]; exact Nat.le_refl _), size_fileOf, Nat.sub_self, succ_mul_page,
+      rw [extract_append_right' (by rw [size_fileOfPages]; exact Nat.le_refl _), size_fileOfPages, Nat.sub_self, succ_mul_page,
         Nat.add_sub_cancel_left]
       have := @ByteArray.extract_zero_size (normPage (q i))
       rw [size_normPage] at this
@@ -84,8 +84,8 @@ def realReach (mr : RealMeta) (f : File) (pn : Nat) : Prop :=
 /-- the image recovery decodes: the meta page and the pages of the read set; everything else is irrelevant (zero pages) -/
 def rebuild (mr : RealMeta) (p : File → Nat → ByteArray) : Image :=
   { metaF := mr.metaF,
-    ln := fileOf (fun i => if mr.lnR i = true then p File.fLn i else zeros PAGE) mr.lnN,
-    bbn := fileOf (fun i => if mr.bbnR i = true then p File.fBbn i else zeros PAGE) mr.bbnN,
+    ln := fileOfPages (fun i => if mr.lnR i = true then p File.fLn i else zeros PAGE) mr.lnN,
+    bbn := fileOfPages (fun i => if mr.bbnR i = true then p File.fBbn i else zeros PAGE) mr.bbnN,
     ht := ByteArray.empty, wal := ByteArray.empty, segs := [] }
 
 abbrev RealAbs := Except String (List (ByteArray × ByteArray))
@@ -170,8 +170,8 @@ theorem absTree_real {A : Image} {m : Meta} {st : Stats} {lnM bbnM : Array UInt8
       pageOf (rebuild (metaRecOf A m lnM bbnM) p).ln pn = pageOf A.ln pn := by
     intro pn hlt hr
     obtain ⟨pg, hpg⟩ := pageOf_isSome_of_lt hlnS hlt
-    show pageOf (fileOf _ (A.ln.size / PAGE + 1)) pn = _
-    rw [pageOf_fileOf _ _ _ (lt_pages hlnS hlt)]
+    show pageOf (fileOfPages _ (A.ln.size / PAGE + 1)) pn = _
+    rw [pageOf_fileOfPages _ _ _ (lt_pages hlnS hlt)]
     simp only [hr, if_true]
     rw [hp _ _ (Or.inl ⟨rfl, hr⟩)]
     show some (normPage ((pageOf A.ln pn).getD (zeros PAGE))) = _
@@ -180,18 +180,18 @@ theorem absTree_real {A : Image} {m : Meta} {st : Stats} {lnM bbnM : Array UInt8
       pageOf (rebuild (metaRecOf A m lnM bbnM) p).bbn pn = pageOf A.bbn pn := by
     intro pn hlt hr
     obtain ⟨pg, hpg⟩ := pageOf_isSome_of_lt hbbnS hlt
-    show pageOf (fileOf _ (A.bbn.size / PAGE + 1)) pn = _
-    rw [pageOf_fileOf _ _ _ (lt_pages hbbnS hlt)]
+    show pageOf (fileOfPages _ (A.bbn.size / PAGE + 1)) pn = _
+    rw [pageOf_fileOfPages _ _ _ (lt_pages hbbnS hlt)]
     simp only [hr, if_true]
     rw [hp _ _ (Or.inr ⟨rfl, hr⟩)]
     show some (normPage ((pageOf A.bbn pn).getD (zeros PAGE))) = _
     rw [hpg, Option.getD_some, normPage_of_size (size_of_pageOf hpg)]
   have hag : ReadAgree A (rebuild (metaRecOf A m lnM bbnM) p) m lnM bbnM := by
     refine ⟨rfl, ?_, ?_, ?_, ?_, ?_, ?_⟩
-    · show A.ln.size ≤ (fileOf _ (A.ln.size / PAGE + 1)).size
-      rw [size_fileOf]; exact le_pages_mul _
-    · show A.bbn.size ≤ (fileOf _ (A.bbn.size / PAGE + 1)).size
-      rw [size_fileOf]; exact le_pages_mul _
+    · show A.ln.size ≤ (fileOfPages _ (A.ln.size / PAGE + 1)).size
+      rw [size_fileOfPages]; exact le_pages_mul _
+    · show A.bbn.size ≤ (fileOfPages _ (A.bbn.size / PAGE + 1)).size
+      rw [size_fileOfPages]; exact le_pages_mul _
     · exact keyLn 0 (Nat.pos_of_ne_zero hb1) (by simp [metaRecOf])
     · exact keyBbn 0 (Nat.pos_of_ne_zero hb2) (by simp [metaRecOf])
     · intro pn hlt hmk
